@@ -59,7 +59,14 @@ def run(ctx):
         m = ctx.modelcheck("TopN", "C12_mc", timeout=1200, workers=4)
         if m.violation:
             raise vlib.Inconclusive("oracle invariant violated in C12_mc:\n%s" % m.violation[:2000])
-    gen = tncommon.generate_all(ctx, [(cfg, mode, num) for cfg, mode, num, both in sel], "TopN")
+    # (M) the cache design (spec/TopNCache.tla): the repaired design keeps IdsExact / TopNComplete in
+    # the small scope; thorough: also the larger scope, and the design before each repair must
+    # still show its counterexample (the model can see the defect classes)
+    mc = [("C12_cacheq", "mc", "TopNCache")]
+    if thorough:
+        mc = [("C12_cache", "mc", "TopNCache"), ("C12_cache3", "mc", "TopNCache")]
+        mc += [(c, "mc_expect", "TopNCache") for c in ("C12_cacheold_delta", "C12_cacheold_below", "C12_cacheold_tomb", "C12_cacheold_order")]
+    gen = tncommon.generate_all(ctx, [(cfg, mode, num) for cfg, mode, num, both in sel] + mc, "TopN")
     first = True
     for cfg, mode, num, both in sel:
         r = gen[cfg]
